@@ -74,6 +74,7 @@ type c07HistResult struct {
 	PrePost     []string `json:"pre_post_pairs"`
 	Problems    []string `json:"problems,omitempty"`
 	History     []c07Ev  `json:"history,omitempty"` // only for problems / samples
+	Rejected    int      `json:"rejected_conflicting_updates"`
 	Writers     int      `json:"writers"`
 	Readers     int      `json:"readers"`
 	RoutesPerRS int      `json:"routes_per_rule_set"`
@@ -126,10 +127,18 @@ func c07Child() {
 			fmt.Println("child: app start failed:", err)
 			os.Exit(3)
 		}
+		// a rule set that never changes and owns /fixed/:x: updates claiming that expression must be rejected as a whole
+		fixed := &rconfig.RuleSet{Version: "1alpha4", MetaData: rconfig.MetaData{Source: "fixed", Hash: []byte("fixed")}, Rules: []rconfig.Rule{{
+			ID: "fixed", Matcher: rconfig.Matcher{Routes: []rconfig.Route{{Path: "/fixed/:x"}}}, Execute: []config.MechanismConfig{{"authenticator": "anon"}}}}}
+		if err := a.Proc.OnCreated(fixed); err != nil {
+			fmt.Println("child: fixed rule set rejected:", err)
+			os.Exit(3)
+		}
 		res := c07HistResult{Index: h, Writers: W, Readers: R, RoutesPerRS: K}
 		var mu sync.Mutex
 		var evs []c07Ev
 		var problems []string
+		rejected := 0
 		record := func(e c07Ev) { mu.Lock(); evs = append(evs, e); mu.Unlock() }
 		problem := func(s string) { mu.Lock(); problems = append(problems, s); mu.Unlock() }
 		final := make([]int, W)
@@ -143,6 +152,20 @@ func c07Child() {
 				for i := 1; i <= nWrites; i++ {
 					var err error
 					next := i
+					if cur != 0 && wr.IntN(5) == 0 {
+						// a change that cannot be applied (claims an expression owned by another rule set): it must be
+						// rejected as a whole, leave this source at its current version and not disturb later changes
+						bad := c07RuleSet(w, 1000+i, K)
+						bad.Rules = append(bad.Rules, rconfig.Rule{ID: fmt.Sprintf("s%d/conflict", w),
+							Matcher: rconfig.Matcher{Routes: []rconfig.Route{{Path: "/fixed/:x"}}}, Execute: []config.MechanismConfig{{"authenticator": "anon"}}})
+						if a.Proc.OnUpdated(bad) == nil {
+							problem(fmt.Sprintf("conflicting-change-accepted: writer %d: an update claiming /fixed/:x (owned by another rule set) was accepted", w))
+							return
+						}
+						mu.Lock()
+						rejected++
+						mu.Unlock()
+					}
 					c := now()
 					switch {
 					case cur == 0:
@@ -240,6 +263,7 @@ func c07Child() {
 			res.Verdict = "unknown"
 		}
 		res.Ops = len(evs)
+		res.Rejected = rejected
 		res.Problems = problems
 		if res.Verdict == "illegal" || len(problems) > 0 || h == first {
 			res.History = evs
@@ -334,6 +358,7 @@ func TestC07(t *testing.T) {
 				r.Case(fmt.Sprintf("%d/%d/%d/%d/%d", r.Seed, hr.Index, hr.Writers, hr.Readers, hr.RoutesPerRS), hr.Overlaps > 0)
 				r.Count("operations", hr.Ops)
 				r.Count("lookup_update_overlaps", hr.Overlaps)
+				r.Count("rejected_conflicting_updates", hr.Rejected)
 				r.Count("histories_"+hr.Verdict, 1)
 				for range hr.PrePost {
 					r.Count("distinct_observed_pairs_during_update", 1)
